@@ -145,6 +145,35 @@ HCFGS = {
     "nostd-avx-release": (["nostd_build"], "release", "-C target-feature=+avx", "nostd"),
     "nostd-avx2-release": (["nostd_build"], "release", "-C target-feature=+avx2", "nostd"),
 }
+# static target features with std (run-time dispatch still decides, but every `cfg(target_feature = ..)` item and
+# every intrinsic is compiled for this very CPU: AVX2, AVX-512VL, … whatever the host has)
+HCFGS["std-native-release"] = ([], "release", "-C target-cpu=native")
+# unoptimised build (opt-level 0): loads and stores the optimiser would delete are really executed (C16)
+HCFGS["std-o0-debug"] = ([], "debug", "", None, {"CARGO_PROFILE_DEV_OPT_LEVEL": "0"})
+
+
+def host_cpu_flags():
+    try:
+        for line in open("/proc/cpuinfo"):
+            if line.startswith("flags"):
+                return set(line.split(":", 1)[1].split())
+    except OSError:
+        pass
+    return set()
+
+
+def register_tf_cfg(feat):
+    """a no-std (compile-time dispatch) configuration with ONE extra static target feature, for features the
+    sources mention that the fixed configurations do not cover; returns its name, or None when this CPU cannot
+    run such a build"""
+    cpu = {"sse3": "pni", "sse4.1": "sse4_1", "sse4.2": "sse4_2"}.get(feat, feat.replace("-", "_").replace(".", "_"))
+    if cpu not in host_cpu_flags():
+        return None
+    name = "nostd-sse2-tf_%s-release" % re.sub(r"[^A-Za-z0-9]", "_", feat)
+    HCFGS[name] = (["nostd_build"], "release", "-C target-feature=+" + feat, "nostd")
+    return name
+
+
 NOSTD_CFGS = ["nostd-sse2-release", "nostd-ssse3-release", "nostd-sse41-release", "nostd-avx-release", "nostd-avx2-release"]
 
 BASE_RUSTFLAGS = "--cfg zerocopy_derive_union_into_bytes --cfg cryptocorrosion_verif -Aunexpected_cfgs -Awarnings"
@@ -194,21 +223,25 @@ def harness_variant(variant):
 def harness_build(cfg):
     feats, prof, extra = HCFGS[cfg][:3]
     variant = HCFGS[cfg][3] if len(HCFGS[cfg]) > 3 else None
+    benv = HCFGS[cfg][4] if len(HCFGS[cfg]) > 4 else {}
     if variant:
         hdir = harness_variant(variant)
         tdir = os.path.join(hdir, "target", re.sub(r"-(debug|release)$", "", cfg))     # one per target-feature set
-        return _cargo_build(hdir, tdir, feats, prof, extra)
-    tdir = os.path.join(HARNESS, "target", "+".join(feats) or "std")
-    return _cargo_build(HARNESS, tdir, feats, prof, extra)
+        return _cargo_build(hdir, tdir, feats, prof, extra, benv)
+    if extra or benv:
+        tdir = os.path.join(HARNESS, "target", re.sub(r"-(debug|release)$", "", cfg))   # own flags: own target dir
+    else:
+        tdir = os.path.join(HARNESS, "target", "+".join(feats) or "std")
+    return _cargo_build(HARNESS, tdir, feats, prof, extra, benv)
 
 
-def _cargo_build(hdir, tdir, feats, prof, extra):
+def _cargo_build(hdir, tdir, feats, prof, extra, benv=None):
     cmd = ["cargo", "build", "--offline", "--target-dir", tdir]
     if prof == "release":
         cmd.append("--release")
     if feats:
         cmd += ["--features", ",".join(feats)]
-    env = {}
+    env = dict(benv or {})
     if extra:
         env["RUSTFLAGS"] = BASE_RUSTFLAGS + " " + extra
     lock = os.path.join(hdir, "Cargo.lock")
